@@ -208,6 +208,10 @@ structure Stats where
   copies : Nat := 0
   swaps : Nat := 0
   displaced : Nat := 0
+  treeStates : Nat := 0
+  treeBad : Nat := 0
+  tableStates : Nat := 0
+  tableBad : Nat := 0
 
 def tableDisplaced (t : Table) : Bool :=
   (List.range t.slots.size).any fun i => match t.slots.getD i none with
@@ -576,6 +580,7 @@ def main (args : List String) : IO Unit := do
   let lines ← Driver.inputLines args
   let mut st : Store := #[]
   let mut stats : HashDrv.Stats := {}
+  let mut nops := 0
   for l in lines do
     if Driver.isSkippable l then continue
     let toks := Driver.words l
@@ -587,4 +592,15 @@ def main (args : List String) : IO Unit := do
     | _ =>
       let (s, t) ← HashDrv.step st stats toks
       st := s; stats := t
-  IO.println s!"S eq_pairs={stats.eqPairs} eq_zero={stats.eqZero} copies={stats.copies} swaps={stats.swaps} displaced_tables={stats.displaced}"
+    -- every Tree of the store satisfies the invariant the copy/assign theorems assume of their source (sampled every 16 ops)
+    nops := nops + 1
+    if nops % 16 != 0 then continue
+    for o in st do
+      match o with
+      | some ⟨_, .tree _ _ es⟩ =>
+        stats := { stats with treeStates := stats.treeStates + 1, treeBad := stats.treeBad + (if treeSeqB HashDrv.addr es then 0 else 1) }
+      | some ⟨_, .table _ _ t⟩ =>
+        stats := { stats with tableStates := stats.tableStates + 1,
+                              tableBad := stats.tableBad + (if entryKeysDistinctB HashDrv.addr t.entries && t.slots.size == t.nslots then 0 else 1) }
+      | _ => pure ()
+  IO.println s!"S eq_pairs={stats.eqPairs} eq_zero={stats.eqZero} copies={stats.copies} swaps={stats.swaps} displaced_tables={stats.displaced} tree_states={stats.treeStates} tree_not_descending={stats.treeBad} table_states={stats.tableStates} table_keys_not_distinct={stats.tableBad}"
